@@ -6,6 +6,7 @@ import (
 	"crypto/sha256"
 	"encoding/binary"
 	"fmt"
+	"io"
 	"sync"
 
 	"github.com/pkg/errors"
@@ -112,6 +113,7 @@ func (repo *ReorgRepository) List(ctx context.Context) ([]*Reorg, error) {
 	result := make([]*Reorg, len(data))
 	for i, b := range data {
 		buf := bytes.NewBuffer(b)
+		result[i] = &Reorg{}
 		if err := result[i].Read(buf); err != nil {
 			return nil, err
 		}
@@ -175,11 +177,13 @@ func (reorg *Reorg) Read(buf *bytes.Buffer) error {
 		return err
 	}
 
-	reorg.Blocks = make([]ReorgBlock, count)
-	for i, _ := range reorg.Blocks {
-		if err := reorg.Blocks[i].Read(buf); err != nil {
+	reorg.Blocks = make([]ReorgBlock, 0, preallocCount(uint64(count)))
+	for i := uint32(0); i < count; i++ {
+		var block ReorgBlock
+		if err := block.Read(buf); err != nil {
 			return err
 		}
+		reorg.Blocks = append(reorg.Blocks, block)
 	}
 
 	return nil
@@ -215,11 +219,13 @@ func (block *ReorgBlock) Read(buf *bytes.Buffer) error {
 		return err
 	}
 
-	block.TxIds = make([]bitcoin.Hash32, count)
-	for i, _ := range block.TxIds {
-		if _, err := buf.Read(block.TxIds[i][:]); err != nil {
+	block.TxIds = make([]bitcoin.Hash32, 0, preallocCount(uint64(count)))
+	for i := uint32(0); i < count; i++ {
+		var txid bitcoin.Hash32
+		if _, err := io.ReadFull(buf, txid[:]); err != nil {
 			return err
 		}
+		block.TxIds = append(block.TxIds, txid)
 	}
 
 	return nil
